@@ -223,6 +223,8 @@ func payloadCodecs() []*codec {
 			{"65536-transactions", cat(h, varint(block.MaxTransactionsPerBlock+1), []byte{0, 0})},
 			{"count-mismatch", cat(h, []byte{2, 1}, rep(0, 32), []byte{0})},
 			{"flags-too-long", cat(h, []byte{1, 1}, rep(0, 32), []byte{2, 0, 0})},
+			// a transaction count above 2^63 must not lift the limit of the hash list
+			{"tx-count-2^64-1", cat(h, rep(0xff, 9), []byte{0xfe, 0, 0, 0, 4})},
 		}
 	}
 	out = append(out, mb)
